@@ -79,9 +79,16 @@ CHECKS["C16"] = dict(
         "conversions round-trip on the documented enumeration (codes regenerated from the headers) and the probe loop never returns the no-probe marker. "
         "Tie: the real err_add/err_clear (header-only) run on an exactly-sized object under ASan for every message length 0..2*bufsz+3 at the three real "
         "inline sizes with realloc succeeding and failing, byte-for-byte comparison with the model; the chain/truncation property is evaluated on the "
-        "implementation's strings. Every public call made by this and the other API streams goes through a monitor (documented status, message iff failure).",
-   note=TB + "Partial: that each of the ~150 error exits of the library sets a message and that no stale message survives a successful call is observed "
-        "by the monitors on the exercised calls (good and truncated dumps, failing reads/attribute calls), not proved.",
+        "implementation's strings. Every public call made by this and the other API streams goes through a monitor (documented status, message iff failure). "
+        "Above the buffer, the message discipline (which call clears, which prepends, which tolerates the failure of a part) is modelled "
+        "(Kdf.Model.ErrFlow: direct_read_ok, get_linux_pgtroot + map_linux_aarch64/riscv64, map_linux_arm, update_xen_extra_ver, get_attr_blob and the "
+        "derived register accessors) with theorems that a call entered with an empty string ends with an empty string iff it succeeds, that a tolerated "
+        "failure leaves no text behind and that a failing chain tells one story; tied by driver stream `flow` to addrxlat_sys_os_init on generated images "
+        "(every architecture; get_page failing with each status class at each page read, every symbol look-up refused in turn) and to register / Xen "
+        "version attribute calls on generated dumps (blob cleared, replaced, too short; crash note pointing to readable, absent, truncated memory).",
+   note=TB + "Partial: that each of the ~150 error exits of the library sets a message and that no stale message survives a successful call is proved for "
+        "the modelled functions (outcomes of callbacks, reads and allocations are parameters assumed to obey the property) and observed by the monitors "
+        "on the other exercised calls (x86_64/ia32 set-up, conversions, good and truncated dumps, failing reads/attribute calls, allocation failures).",
    technique="Lean 4 proof (buffer invariant over all histories) + differential correspondence + API monitors", design="§6 C16")
 CHECKS["C11"] = dict(
    text="Lean proofs over a model of flatmap.c (record scan, pread and chunk retrieval from a flattened stream; the range map is the proved C10 model): "
